@@ -41,7 +41,7 @@ const CanonicalDoc = `{"nums":[3,1,2,2,-5,10.5],"strs":["b","a","c","a","é"],` 
 	`"objs":[{"k":3,"s":"c","t":[1]},{"k":1,"s":"a","t":[2,3]},{"k":2,"s":"b","t":[]},{"k":1,"s":"a2","t":null}],` +
 	`"mixed":[{"k":1},{"k":"x"},{"k":2},{"k":0}],"mixeds":[{"k":"b"},{"k":"a"},{"k":1},{"k":"c"}],` +
 	`"sparse":[1,null,2,null,null,3,"a",null],"sparseobjs":[{"k":1},null,{"k":2,"t":null},null],"nested":[[1,2],[3],[],[4,[5]]],"grid":[[{"k":2,"s":"b","t":[1]},{"k":1,"s":"a","t":[]}],[{"k":3,"s":"c","t":[2,3]}],[]],` +
-	`"tree":{"name":"r","kids":[{"name":"a","kids":[{"name":"b","kids":[]}]},{"name":"c","kids":[]}]},"o1":{"a":1,"b":{"c":[1,2]}},"o2":{"b":2,"z":[9]},` +
+	`"tree":{"name":"r","kids":[{"name":"a","kids":[{"name":"b","kids":[]}]},{"name":"c","kids":[]}]},"o1":{"a":1,"b":{"c":[1,2]}},"o2":{"b":2,"z":[9]},"o3":{"a":{"x":1},"b":{"c":[9],"d":{"e":{"f":1}},"g":{"h":2}},"m0":{"p":{"q":1}}},` +
 	`"s":"héllo","n":-3.5,"t":true,"z":null,"e":[],"eo":{}}`
 
 func arrLen(r *Rng) int {
@@ -262,6 +262,8 @@ func Doc(r *Rng) string {
 		o2[fmt.Sprintf("m%d", r.Intn(6))] = str(r)
 	}
 	d["o2"] = o2
+	d["o3"] = map[string]interface{}{"a": map[string]interface{}{"x": num(r)}, "b": map[string]interface{}{"c": []interface{}{num(r)}, "d": map[string]interface{}{"e": map[string]interface{}{"f": num(r)}}, "g": map[string]interface{}{"h": str(r)}},
+		"m0": map[string]interface{}{"p": map[string]interface{}{"q": num(r)}}}
 	d["s"] = str(r) + "héllo"
 	d["n"] = num(r) - 3.5
 	d["t"] = r.Chance(1, 2)
@@ -429,7 +431,7 @@ func (g *G) Obj() string {
 	defer g.deeper()()
 	r := g.R
 	if g.leaf() {
-		return r.Pick([]string{"o1", "o2", "objs[0]", "objs[-1]", "o1.b", r.Pick(litObj), "eo"})
+		return r.Pick([]string{"o1", "o2", "o3", "o3.b", "objs[0]", "objs[-1]", "o1.b", r.Pick(litObj), "eo"})
 	}
 	switch r.Intn(8) {
 	case 0, 1:
@@ -788,7 +790,7 @@ func Systematic() []string {
 		"map(&k, objs)", "map(&t, objs)", "map(&reverse(t), objs)", "map(&k, o1)", "map(&sort_by(@, &@), nested)",
 		"max(nums)", "max(strs)", "max(objs)", "min(nums)", "min(strs)", "min(mixed)",
 		"max_by(objs, &k)", "max_by(objs, &s)", "max_by(mixed, &k)", "max_by(objs, &t)", "min_by(objs, &k)", "min_by(objs, &s)", "min_by(mixed, &k)",
-		"merge(o1, o2)", "merge(o1, `{\"x\":1}`)", "merge(`{\"x\":1}`, o1)", "merge(o1, nums)", "merge(o1)", "merge(`{\"x\":{\"y\":1}}`, `{\"z\":2}`)",
+		"merge(o1, o3)", "merge(o3, o1)", "merge(o1.b, o3.b)", "merge(o3.b, o3.b.d)", "merge(`{\"b\":{\"c\":[0]}}`, o3)", "merge(o1, o2)", "merge(o1, `{\"x\":1}`)", "merge(`{\"x\":1}`, o1)", "merge(o1, nums)", "merge(o1)", "merge(`{\"x\":{\"y\":1}}`, `{\"z\":2}`)",
 		"not_null(z, nums)", "not_null(z, z)", "not_null(objs)",
 		"reverse(nums)", "reverse(objs)", "reverse(s)", "reverse(o1)", "reverse(`[3,1,2]`)",
 		"sort(nums)", "sort(strs)", "sort(objs)", "sort(`[3,1,2]`)", "sort(`[\"b\",\"a\"]`)",
